@@ -38,7 +38,8 @@ _num_hashes(num_hashes),
 _num_buckets(num_buckets),
 _sketch_array((num_hashes > 0 && num_buckets >= 3 && static_cast<uint64_t>(num_hashes) * num_buckets < (1ULL << 30)) ? static_cast<size_t>(num_hashes) * num_buckets : 0, 0, _allocator),
 _seed(seed),
-_total_weight(0) {
+_total_weight(0),
+hash_seeds(_allocator) {
   if (num_hashes < 1) throw std::invalid_argument("Must have at least 1 hash function.");
   if (num_buckets < 3) throw std::invalid_argument("Using fewer than 3 buckets incurs relative error greater than 1.");
 
@@ -116,7 +117,7 @@ uint8_t count_min_sketch<W,A>::suggest_num_hashes(double confidence) {
 }
 
 template<typename W, typename A>
-std::vector<uint64_t> count_min_sketch<W,A>::get_hashes(const void* item, size_t size) const {
+auto count_min_sketch<W,A>::get_hashes(const void* item, size_t size) const -> vector_u64 {
   /*
    * Returns the hash locations for the input item using the original hashing
    * scheme from [1].
@@ -132,7 +133,7 @@ std::vector<uint64_t> count_min_sketch<W,A>::get_hashes(const void* item, size_t
    * https://www.eecs.harvard.edu/~michaelm/postscripts/tr-02-05.pdf
    */
   uint64_t bucket_index;
-  std::vector<uint64_t> sketch_update_locations;
+  vector_u64 sketch_update_locations(_allocator);
   sketch_update_locations.reserve(_num_hashes);
 
   uint64_t hash_seed_index = 0;
@@ -164,12 +165,12 @@ W count_min_sketch<W,A>::get_estimate(const void* item, size_t size) const {
   /*
    * Returns the estimated frequency of the item
    */
-  std::vector<uint64_t> hash_locations = get_hashes(item, size);
-  std::vector<W> estimates;
+  const vector_u64 hash_locations = get_hashes(item, size);
+  W estimate = _sketch_array[hash_locations[0]];
   for (const auto h: hash_locations) {
-    estimates.push_back(_sketch_array[h]);
+    estimate = std::min(estimate, _sketch_array[h]);
   }
-  return *std::min_element(estimates.begin(), estimates.end());
+  return estimate;
 }
 
 template<typename W, typename A>
@@ -195,7 +196,7 @@ void count_min_sketch<W,A>::update(const void* item, size_t size, W weight) {
    * locations by the weight.
    */
   _total_weight += weight >= 0 ? weight : -weight;
-  std::vector<uint64_t> hash_locations = get_hashes(item, size);
+  const vector_u64 hash_locations = get_hashes(item, size);
   for (const auto h: hash_locations) {
     _sketch_array[h] += weight;
   }
